@@ -132,6 +132,22 @@ def correspond(ctx):
         if len(set(ids.values()) | {rec["unsubmitted"]}) != 1:
             ctx.monitor_fail("environment-changes-identifier", f"identifier depends on launcher / workspace / run mode: {ids}, unsubmitted {rec['unsubmitted']}",
                              {"graph": case["graph"], "identifiers": ids})
+    # Meta / Option values that were loaded from a saved definition (state dict, save/load) instead of built in Python
+    mcases = []
+    for _ in range(ctx.scale(12, 120)):
+        variants = [{"m": rng.choice([None, 1, 2]), "o": rng.choice([None, 3]), "ms": rng.choice([[], [4], [4, 5]]),
+                     "via": rng.choice(["python", "state", "save"])} for _ in range(rng.choice([3, 4, 5]))]
+        variants[0]["via"] = "python"
+        mcases.append({"a": rng.choice([1, 2, 3]), "variants": variants})
+    for case, rec in zip(mcases, identlib.run_worker({"cases": mcases}, ctx.tmpdir(), "metaload", None, "xv.impl.metaload_worker")):
+        if rec["error"]:
+            raise RuntimeError(f"meta-load case cannot run: {rec['error']}")
+        ctx.case({"meta_loaded_case": case}, True)
+        ctx.count("edit_kind", "meta_value:loaded")
+        if len(set(rec["ids"])) != 1:
+            ctx.monitor_fail("neutral-edit-changes-identifier:meta_value_loaded",
+                             f"the identifier depends on Meta/Option values obtained through {sorted({v['via'] for v in case['variants']})}: {[i[:12] for i in rec['ids']]}",
+                             {"meta_loaded_case": case})
     try:
         mouts = identlib.model_outputs(ctx, [r for _, r in good])
     except Exception as e:
